@@ -231,7 +231,7 @@ def run(tier, seed):
     # 2. behaviours -------------------------------------------------------------------------------
     behs = []   # (config, behaviour)
     emit = [dict(KA=2, KB=3, maxT=10, maxTicks=3, maxCancels=1, durations=[0, 1, 4, 9], emitlen=4)]
-    nsim = 1500 if not thorough else 12000
+    nsim = 1000 if not thorough else 12000
     if thorough:
         emit = [dict(KA=2, KB=3, maxT=10, maxTicks=3, maxCancels=2, durations=[0, 1, 4, 9], emitlen=6)]
     for c in emit:
@@ -240,6 +240,7 @@ def run(tier, seed):
         ev.add_tlc(f"Timer.tla behaviour tree {c}", r, "exhaustive tree of behaviours with history, emitted for replay")
         for b in r.prints:
             behs.append(((c["KA"], c["KB"]), b))
+    ntree = len(behs)
     sims = [dict(KA=2, KB=3, maxT=16, maxTicks=6, maxCancels=3, durations=[0, 1, 2, 4, 6, 9], emitlen=22),
             dict(KA=1, KB=0, maxT=10, maxTicks=8, maxCancels=3, durations=[0, 1, 2, 5], emitlen=24),
             dict(KA=1, KB=2, maxT=12, maxTicks=6, maxCancels=3, durations=[0, 1, 2, 3, 5], emitlen=22)]
@@ -262,17 +263,23 @@ def run(tier, seed):
         raise MachineryError("no behaviours emitted by TLC")
 
     # 3. replay + record ------------------------------------------------------------------------------
-    inst = {(2, 3): [(1.0, 0.0), (1.0, 0.1), (1.0, 12345.678901)],
-            (1, 0): [(1.0, 0.1), (2.0, 1e6 + 0.3), (5.0, 0.7)],
-            (1, 2): [(1.0, 0.3), (5.0, 0.1)]}
+    # (quantum in seconds, start offset, loop clock resolution, how early "within clock resolution" is)
+    FINE, COARSE = (1e-9, 2.5e-10), (1e-3, 4e-4)       # Linux-like monotonic clock / a coarse (Windows-like) clock
+    inst = {(2, 3): [(1.0, 0.0) + FINE, (1.0, 0.1) + COARSE, (1.0, 12345.678901) + FINE],
+            (1, 0): [(1.0, 0.1) + FINE, (2.0, 1e6 + 0.3) + COARSE, (5.0, 0.7) + FINE],
+            (1, 2): [(1.0, 0.3) + COARSE, (5.0, 0.1) + FINE]}
     traces = []
     meta = {}
     nreplay = 0
     nontrivial = set()
     drift = []
-    for (ka, kb), b in behs:
-        for (q, t0) in inst[(ka, kb)]:
-            drv = Driver(b, ka, kb, q, t0)
+    treeset = set(common.jhash([kk, b]) for kk, b in behs[:ntree])
+    for bi, ((ka, kb), b) in enumerate(behs):
+        choices = inst[(ka, kb)]
+        if not thorough and common.jhash([(ka, kb), b]) in treeset:
+            choices = [choices[bi % len(choices)]]       # the exhaustive tree: one instantiation each, rotating
+        for (q, t0, res, early) in choices:
+            drv = Driver(b, ka, kb, q, t0, delta=early, resolution=res)
             try:
                 driven = drv.run()
             except Exception as e:   # the real code must not fail under any behaviour
@@ -282,7 +289,7 @@ def run(tier, seed):
             nreplay += 1
             tid = len(traces)
             traces.append({"tid": tid, "timers": ["A", "B"], "events": drv.events})
-            meta[tid] = (ka, kb, q, t0, b)
+            meta[tid] = (ka, kb, q, t0, b, res, early)
             # (a) prediction of the model vs. the real events of the driven part
             pred = per_timer(predicted_events(b))
             real = per_timer(drv.events[:driven])
@@ -319,11 +326,11 @@ def run(tier, seed):
     ev.cov["traces_validated_against_impl"] = len(traces)
     bad = [v for v in verdicts.values() if v["bad"] != "ok"]
     for v in bad:
-        ka, kb, q, t0, b = meta[v["tid"]]
+        ka, kb, q, t0, b, res, early = meta[v["tid"]]
         vd.violation({"what": f"recorded log violates the tick rule: {v['bad']} at event {v['at']} "
                               f"(intervals {ka}*{q}s/{kb}*{q}s, start offset {t0})",
                       "clause": v["bad"], "events": traces[v["tid"]]["events"], "behaviour": b,
-                      "K": [ka, kb], "q": q, "t0": t0})
+                      "K": [ka, kb], "q": q, "t0": t0, "res": res, "early": early})
     for t in traces[:3]:
         ev.sample({"behaviour": [e["env"] for e in meta[t["tid"]][4]], "recorded_events": t["events"][:12]})
     ev.cov["behaviours"] = len(behs)
@@ -346,7 +353,7 @@ def replay(path):
         print(json.dumps(case, indent=1)[:4000])
         return 1
     ka, kb = case["K"]
-    drv = Driver(case["behaviour"], ka, kb, case["q"], case["t0"])
+    drv = Driver(case["behaviour"], ka, kb, case["q"], case["t0"], delta=case.get("early", 2.5e-10), resolution=case.get("res", 1e-9))
     drv.run()
     for e in drv.events:
         print(e)
